@@ -91,6 +91,17 @@ def scenarios(rng):
     tgt = ['build 2 ' + to_tn(treegen.gen_tree(rng, maxdepth=2))]
     S.append(('addref/to-array', ['carr 1', 'cnum 3 3ff0000000000000', 'adda 1 3'] + tgt, 'addrefa 1 2', ['del 1', 'chk 2', 'del 2', 'clr 1'], [1, 2]))
     S.append(('addref/to-object', b1 + tgt, 'addrefo 1 %s 2' % hx(key), ['del 1', 'chk 2', 'del 2', 'clr 1'], [1, 2]))
+    # the referenced item is a member of another document with siblings after it: a failed call must
+    # leave that document alone
+    host = Node('a')
+    host.kids = [Node.string(b'first'), treegen.gen_tree(rng, maxdepth=2), Node.num(2.0), Node.string(b'last')]
+    hosto = Node('o')
+    hosto.kids = [Node.string(b'v1', key=b'm1'), Node('a', key=b'm2'), Node('t', key=b'm3')]
+    for hn, h in (('array-element', host), ('object-member', hosto)):
+        for idx in (0, 1):
+            hb = ['build 2 ' + to_tn(h), 'child 3 2 %d' % idx]
+            S.append(('addref/to-object/target-is-%s-%d' % (hn, idx), b1 + hb, 'addrefo 1 %s 3' % hx(key), ['del 1', 'chk 2', 'del 2', 'clr 1', 'clr 3'], [1, 2]))
+            S.append(('addref/to-array/target-is-%s-%d' % (hn, idx), ['carr 1', 'cnum 4 3ff0000000000000', 'adda 1 4'] + hb, 'addrefa 1 3', ['del 1', 'chk 2', 'del 2', 'clr 1', 'clr 3'], [1, 2]))
     dtree = tree_with_strings(rng)
     S.append(('duplicate/recursive', ['build 1 ' + to_tn(dtree), 'carr 5', 'addrefa 5 1', 'adda 5 1' if False else 'cnull 6'],
               'dup 10 1 1', ['onok chk 10', 'onok del 10', 'del 5', 'del 6'], [1]))
